@@ -16,7 +16,7 @@ pub const FLOORS: &[&str] = &[
     "two_loop_revisit", "removed_breakpoint_passed", "resume:continue", "resume:step", "resume:si",
     "resume:so", "loc:abs", "loc:label", "loc:pc", "break_before_first", "break_after_last",
     "break_doubled", "nondefault_origin", "trace_invariant_checked", "origin_below_statement_count", "pause_at_break_outside_image",
-    "reset_between_list_change_and_resume",
+    "reset_between_list_change_and_resume", "many_breakpoints",
 ];
 
 struct Loopy {
@@ -416,6 +416,19 @@ fn random_case(seed: u64, i: u64) -> CaseOut {
     let lay = if rng.bool() { Layout::canonical() } else { Layout::random(&mut rng) };
     let text = render(&built.program, &lay, &mut rng).text;
     let mut cmds = Vec::new();
+    if rng.chance(1, 10) {
+        // many breakpoints, added in no particular order (with repeats), some removed again: the list
+        // stays sorted and duplicate-free however long it gets, and every one of them still fires
+        let n = 20 + rng.below(80);
+        for _ in 0..n {
+            cmds.push(match rng.below(8) {
+                0 => Cmd::BreakRemoveLoc(random_loc(&mut rng, &img)),
+                1 => Cmd::BreakList,
+                _ => Cmd::BreakAdd(img.origin().wrapping_add(rng.below(img.words.len() as u64 + 1) as u16)),
+            });
+        }
+        out.class("many_breakpoints");
+    }
     for _ in 0..rng.below(12) {
         cmds.push(match rng.below(10) {
             0 | 1 => Cmd::Continue,
